@@ -7,4 +7,6 @@ export CARGO_NET_OFFLINE=true
 mkdir -p .cache .work evidence replays
 cp /repo/Cargo.lock replay/Cargo.lock 2>/dev/null || true
 (cd replay && CARGO_TARGET_DIR="$PWD/../.cache/replay-target" cargo build --offline --quiet) || echo "warning: replay crate did not build"
+python3 tools/gen_xcheck.py > /dev/null && cp /repo/Cargo.lock xcheck/Cargo.lock 2>/dev/null || true
+(cd xcheck && XCHECK_REPO=/repo CARGO_TARGET_DIR="$PWD/../.cache/xcheck-target" cargo build --offline --quiet) || echo "warning: xcheck crate did not build"
 echo "setup ok"
